@@ -334,6 +334,19 @@ func (this *partition) removeNode(nodeId uint64) {
 	}
 }
 
+// The replica set as a catalogue snapshot holds it; loads or unloads this
+// node's replica like the individual changes that led to it would have.
+func (this *partition) setNodeIds(nodeIds []uint64) {
+	wasOnNode := this.isOnNode(this.raftTransport.NodeId())
+	this.meta.NodeIds = append(make([]uint64, 0, len(nodeIds)), nodeIds...)
+
+	if isOnNode := this.isOnNode(this.raftTransport.NodeId()); isOnNode && !wasOnNode {
+		this.loadRaft(nil)
+	} else if !isOnNode && wasOnNode {
+		this.unloadRaft()
+	}
+}
+
 func (this *partition) proposeAndWaitForCommit(ctx context.Context, proposal *pb.PartitionChange) (interface{}, error) {
 	ctx, cancelCtx := context.WithTimeout(ctx, proposalTimeout)
 	defer cancelCtx()
